@@ -13,26 +13,39 @@ import (
 
 // Frag is one path fragment.
 type Frag struct {
-	K   string `json:"k"` // child | nth | wild | descent
-	Key string `json:"key,omitempty"`
-	N   int    `json:"n,omitempty"`
+	K    string   `json:"k"` // child | nth | wild | descent | union | slice
+	Key  string   `json:"key,omitempty"`
+	N    int      `json:"n,omitempty"`    // nth: index; slice: start
+	M    int      `json:"m,omitempty"`    // slice: end (exclusive), -1 = open
+	Keys []string `json:"keys,omitempty"` // union of member names
 }
 
 // Path is a JSON path relative to the document root.
 type Path []Frag
 
-func fChild(k string) Frag { return Frag{K: "child", Key: k} }
-func fNth(n int) Frag      { return Frag{K: "nth", N: n} }
-func fWild() Frag          { return Frag{K: "wild"} }
-func fDescent() Frag       { return Frag{K: "descent"} }
+func fChild(k string) Frag    { return Frag{K: "child", Key: k} }
+func fNth(n int) Frag         { return Frag{K: "nth", N: n} }
+func fWild() Frag             { return Frag{K: "wild"} }
+func fDescent() Frag          { return Frag{K: "descent"} }
+func fUnion(k ...string) Frag { return Frag{K: "union", Keys: k} }
+func fSlice(s, e int) Frag    { return Frag{K: "slice", N: s, M: e} }
 
 func (p Path) definite() bool {
 	for _, f := range p {
-		if f.K == "wild" || f.K == "descent" {
+		if f.K != "child" && f.K != "nth" {
 			return false
 		}
 	}
 	return true
+}
+
+func (p Path) hasSlice() bool {
+	for _, f := range p {
+		if f.K == "slice" {
+			return true
+		}
+	}
+	return false
 }
 
 func (p Path) hasDescent() bool {
@@ -91,6 +104,14 @@ func (p Path) render(style int) string {
 			}
 		case "descent":
 			b.WriteString("..")
+		case "union":
+			b.WriteString("['" + strings.Join(f.Keys, "','") + "']")
+		case "slice":
+			if f.M < 0 {
+				b.WriteString("[" + strconv.Itoa(f.N) + ":]")
+			} else {
+				b.WriteString("[" + strconv.Itoa(f.N) + ":" + strconv.Itoa(f.M) + "]")
+			}
 		}
 	}
 	return b.String()
@@ -227,6 +248,22 @@ func evalPathX(root *Node, p Path, allNonFinal bool) (out []match, fl evalFlags)
 				next = append(next, children(m)...)
 			case "descent":
 				descendants(m, &next)
+			case "union":
+				if m.node.K == kObj {
+					for _, k := range f.Keys {
+						if v, ok := m.node.get(k); ok {
+							next = append(next, match{m.at.extend(Step{Key: k}), v})
+						} else {
+							fl.missing = true
+						}
+					}
+				}
+			case "slice":
+				if m.node.K == kArr {
+					for i := f.N; 0 <= i && (i < f.M || f.M < 0) && i < len(m.node.A); i++ {
+						next = append(next, match{m.at.extend(Step{Idx: i, Nth: true}), m.node.A[i]})
+					}
+				}
 			}
 		}
 		if f.K != "descent" && (allNonFinal || fi < len(p)-1) {
@@ -281,8 +318,8 @@ func modelSet(root *Node, p Path, v *Node) (result *Node, status, why string, an
 		return v.clone(), stOK, "", loc{}
 	}
 	last := p[len(p)-1]
-	if last.K == "descent" {
-		return root, stUndefined, "ends-in-descent", definitePrefix(root, p)
+	if last.K == "descent" || last.K == "slice" {
+		return root, stUndefined, "ends-in-" + last.K, definitePrefix(root, p)
 	}
 	work := root.clone()
 	prefix := p[:len(p)-1]
@@ -355,6 +392,13 @@ func modelSet(root *Node, p Path, v *Node) (result *Node, status, why string, an
 			for j := range cur.A {
 				cur.A[j] = v.clone()
 			}
+		case "union":
+			if cur.K != kObj {
+				return root, stUndefined, "child-of-" + cur.subKind(), at
+			}
+			for _, k := range last.Keys {
+				cur.put(k, v.clone())
+			}
 		}
 		return work, stOK, "", at
 	}
@@ -398,6 +442,12 @@ func modelSet(root *Node, p Path, v *Node) (result *Node, status, why string, an
 		case "wild":
 			for j := range m.node.A {
 				m.node.A[j] = v.clone()
+			}
+		case "union":
+			if m.node.K == kObj {
+				for _, k := range last.Keys {
+					m.node.put(k, v.clone())
+				}
 			}
 		}
 	}
@@ -480,6 +530,20 @@ func modelRemove(root *Node, p Path) (result *Node, status, why string, anchor l
 			if m.node.isContainer() {
 				m.node.A = []*Node{}
 				m.node.Keys = nil
+			}
+		case "union":
+			if m.node.K == kObj {
+				for _, k := range last.Keys {
+					m.node.del(k)
+				}
+			}
+		case "slice":
+			if m.node.K == kArr && 0 <= last.N && last.N < len(m.node.A) && (last.N < last.M || last.M < 0) {
+				e := last.M
+				if len(m.node.A) < e || e < 0 {
+					e = len(m.node.A)
+				}
+				m.node.A = append(m.node.A[:last.N:last.N], m.node.A[e:]...)
 			}
 		}
 	}
